@@ -460,3 +460,37 @@ def new_account(ctx):
         kw = {k.arg: norm(k.value) for k in c.keywords}
         ctx.require(kw.get('account_id') == 'account_id' and kw.get('witness_type') == 'witness_type' and kw.get('network') == 'network', q,
                     'key_for_path is called with %s' % kw, c)
+
+
+@PROP.obligation('C09.public-copy', canaries=[
+    mut.replace_expr('wallets', 'WalletKey.public', 'copy(self)', 'self', 'public() strips the cached wallet key itself'),
+])
+def public_copy(ctx):
+    """WalletKey.public() (used by Wallet.public_master) strips the private parts from a COPY. The wallet caches its WalletKey objects;
+    stripping the cached account key in place makes every key derived from it afterwards public-only - also in the database - so the
+    wallet hands out keys it cannot sign for. The object whose attributes are cleared must be defined as copy(self) / deepcopy(self) /
+    a constructor call, never as self; and no attribute of self is assigned. Same for Key.public and HDKey.public."""
+    for q in ('wallets:WalletKey.public', 'keys:Key.public', 'keys:HDKey.public'):
+        fn = ctx.repo.func(q)
+        cleared = {}
+        for n in ast.walk(fn):
+            if isinstance(n, ast.Assign) and isinstance(n.targets[0], ast.Attribute) and isinstance(n.targets[0].value, ast.Name):
+                cleared.setdefault(n.targets[0].value.id, []).append(n)
+        if not cleared:
+            ctx.undecided('%s: no attribute is cleared' % q)
+        origin = {}
+        for n in ast.walk(fn):
+            if isinstance(n, ast.Assign) and isinstance(n.targets[0], ast.Name) and n.targets[0].id in cleared:
+                origin[n.targets[0].id] = norm(n.value)
+        ctx.saw('%s clears attributes of %s' % (q, {k: origin.get(k, '(not assigned here)') for k in cleared}))
+        for name, nodes in cleared.items():
+            if name == 'self':
+                ctx.violate(q, 'public() assigns attributes of self (%s): the key object the caller keeps is stripped' % ', '.join(sorted(set(norm(x.targets[0]) for x in nodes))), nodes[0],
+                            'after wallet.public_master(account_id=N) the wallet derives public-only keys for account N')
+                continue
+            src = origin.get(name)
+            if src == 'self':
+                ctx.violate(q, '`%s = self`: public() strips the object itself instead of a copy' % name, nodes[0],
+                            'after wallet.public_master(account_id=N) the wallet derives public-only keys for account N')
+            elif src is None or not any(src.startswith(p_) for p_ in ('copy(self)', 'deepcopy(self)', 'copy.copy(self)', 'copy.deepcopy(self)')):
+                ctx.unsure('%s: origin of `%s` not recognised: %s' % (q, name, src))
